@@ -15,7 +15,8 @@ simvars == <<vars, w>>
 Oldest == CHOOSE d \in wire : \A e \in wire : e.id >= d.id
 
 SimNext ==
-  \/ \E s \in 1..2, t \in PubTags : Publish(t) /\ w' = s
+  \/ \E s \in 1..2, t \in PubTags : Publish(t, TRUE) /\ w' = s
+  \/ \E t \in PubTags : FALSE \in DeltaOpts /\ Publish(t, FALSE) /\ w' = 0
   \/ ClearHistory /\ w' = 0
   \/ \E s \in 1..4 : wire # {} /\ Deliver(Oldest, FALSE) /\ w' = s
   \/ \E d \in wire : Drop(d) /\ w' = 0
